@@ -41,6 +41,15 @@ theorem peAhead_spec (rows : Array Row) (fl : Array Nat) (line : Nat) : ∀ fuel
               | false => simp [hs] at hc
           · rw [if_neg hp]; exact ih (ahead + 1) cur
 
+theorem peAheadFrom_spec (rows : Array Row) (fl : Array Nat) (r : Row) (fuel ahead : Nat) (cur : Nat × Nat) :
+    peAheadFrom rows fl r fuel ahead cur = cur ∨
+    ∃ lr : Row, fl[(peAheadFrom rows fl r fuel ahead cur).2]? = some (peAheadFrom rows fl r fuel ahead cur).1 ∧
+      rows[(peAheadFrom rows fl r fuel ahead cur).1]? = some lr ∧ lr.line = r.line ∧ lr.stmt = true := by
+  unfold peAheadFrom
+  by_cases hp : r.pe = true
+  · rw [if_pos hp]; exact Or.inl rfl
+  · rw [if_neg hp]; exact peAhead_spec rows fl r.line fuel ahead cur
+
 theorem suitableLoop_sound (rows : Array Row) (fl : Array Nat) (needle : Nat) : ∀ fuel i acc,
     (∀ q ∈ acc, GoodPlace rows fl needle q) →
     ∀ q ∈ suitableLoop rows fl needle fuel i acc, GoodPlace rows fl needle q := by
@@ -72,7 +81,7 @@ theorem suitableLoop_sound (rows : Array Row) (fl : Array Nat) (needle : Nat) : 
               cases hs : r.stmt with
               | true => rfl
               | false => simp [hs] at hc
-            cases hpa : peAhead rows fl r.line (fl.size - i) (i + 1) (lineIdx, i) with
+            cases hpa : peAheadFrom rows fl r (fl.size - i) (i + 1) (lineIdx, i) with
             | mk li i' =>
               simp only []
               cases h3 : rows[li]? with
@@ -83,7 +92,7 @@ theorem suitableLoop_sound (rows : Array Row) (fl : Array Nat) (needle : Nat) : 
                 intro q hq
                 simp only [List.mem_singleton] at hq
                 subst hq
-                rcases peAhead_spec rows fl r.line (fl.size - i) (i + 1) (lineIdx, i) with he | ⟨lr, e1, e2, e3, e4⟩
+                rcases peAheadFrom_spec rows fl r (fl.size - i) (i + 1) (lineIdx, i) with he | ⟨lr, e1, e2, e3, e4⟩
                 · rw [hpa] at he
                   injection he with he1 he2
                   subst he1
@@ -299,14 +308,14 @@ theorem suitableLoop_complete (rows : Array Row) (fl : Array Nat) (needle : Nat)
             simp [hst, hl] at hc
           exact ih (i + 1) (by omega) ⟨t, idx, r, by omega, ht, hr, hst, hl⟩
         · rw [if_neg hc]
-          cases hpa : peAhead rows fl r0.line (fl.size - i) (i + 1) (lineIdx, i) with
+          cases hpa : peAheadFrom rows fl r0 (fl.size - i) (i + 1) (lineIdx, i) with
           | mk li i' =>
             simp only []
             cases h3 : rows[li]? with
             | some r' => exact suitableLoop_ne_of_acc rows fl needle fuel (i' + 1) [(li, r')] (by simp)
             | none =>
               exfalso
-              rcases peAhead_spec rows fl r0.line (fl.size - i) (i + 1) (lineIdx, i) with he | ⟨lr, _, e2, _, _⟩
+              rcases peAheadFrom_spec rows fl r0 (fl.size - i) (i + 1) (lineIdx, i) with he | ⟨lr, _, e2, _, _⟩
               · rw [hpa] at he
                 injection he with he1 _
                 subst he1
